@@ -27,6 +27,7 @@ def dispatch (j : Json) : R Json := do
   | "xml_cache" => opXmlCache j
   | "cli" => opCli j
   | "cli_digest" => opCliDigest j
+  | "cli_extract_meta" => opCliExtractMeta j
   | "events" => opEvents j
   | "grad" => opGrad j
   | "prob" => opProb j
